@@ -270,7 +270,7 @@ class MibCompiler(object):
 
                         mibsToParse.extend(mibInfo.imported)
 
-                        if fileInfo.name in mibnames:
+                        if mibname in mibnames:
                             if mibInfo.name not in canonicalMibNames:
                                 canonicalMibNames[mibInfo.name] = []
                             canonicalMibNames[mibInfo.name].append(fileInfo.name)
